@@ -449,3 +449,43 @@ Proof.
   split; [intro E; discriminate E|]. split; [exact K|].
   exact (key_injective hex_enc hex_enc_inj hex_enc_no_us _ _ _ _ K).
 Qed.
+
+(* ================================================================== the no-cache output hash (GetNoCacheOutputHash) *)
+(* splitting at the first occurrence of a character *)
+Lemma split_first_sep (c : ascii) : forall a a' b b' : str,
+  ~ In c a -> ~ In c a' -> a ++ c :: b = a' ++ c :: b' -> a = a' /\ b = b'.
+Proof.
+  induction a as [|x a IH]; intros [|x' a'] b b' Ha Ha' E; cbn [app] in E.
+  - inversion E. auto.
+  - inversion E; subst. exfalso. apply Ha'. left. reflexivity.
+  - inversion E; subst. exfalso. apply Ha. left. reflexivity.
+  - inversion E; subst. destruct (IH a' b b') as [-> ->]; auto.
+    + intro Hin. apply Ha. right. exact Hin.
+    + intro Hin. apply Ha'. right. exact Hin.
+Qed.
+
+(* "<output definition>=<digest>" determines both parts when the digest contains no '=' (a hex digest, a
+   "sha256:<hex>" image id): the LAST '=' separates them, whatever the output identifier contains *)
+Lemma nocache_item_inj (d1 g1 d2 g2 : str) :
+  ~ In ch_eq g1 -> ~ In ch_eq g2 ->
+  nocache_item (d1, g1) = nocache_item (d2, g2) -> d1 = d2 /\ g1 = g2.
+Proof.
+  unfold nocache_item. cbn [fst snd]. intros H1 H2 E.
+  apply (f_equal (@rev ascii)) in E. rewrite !rev_app_distr in E. cbn [rev] in E.
+  rewrite <- !app_assoc in E. cbn [app] in E.
+  apply split_first_sep in E as [Eg Ed]; [| rewrite <- in_rev; exact H1 | rewrite <- in_rev; exact H2].
+  split; [apply (f_equal (@rev ascii)) in Ed | apply (f_equal (@rev ascii)) in Eg];
+    rewrite !rev_involutive in *; assumption.
+Qed.
+
+(* two different outputs exchanging two different contents change the multiset of hashed items (hence the
+   sorted list that is hashed); the digests-only formula used before the repair of C01-F3 was blind to it *)
+Lemma nocache_item_swap_differs (d1 d2 g1 g2 : str) :
+  ~ In ch_eq g1 -> ~ In ch_eq g2 -> d1 <> d2 -> g1 <> g2 ->
+  ~ Permutation (map nocache_item [(d1, g1); (d2, g2)]) (map nocache_item [(d1, g2); (d2, g1)]).
+Proof.
+  intros H1 H2 Hd Hg P. cbn [map] in P.
+  assert (Hin : In (nocache_item (d1, g1)) [nocache_item (d1, g2); nocache_item (d2, g1)]).
+  { eapply Permutation_in; [exact P | left; reflexivity]. }
+  destruct Hin as [E|[E|[]]]; symmetry in E; apply nocache_item_inj in E as [Ea Eb]; auto; congruence.
+Qed.
